@@ -9,7 +9,7 @@
    Discrete; closed under the global context. *)
 From Coq Require Import List Bool ZArith QArith.
 Local Close Scope Q_scope.
-From FDAV Require Import Model.Encoding Lemmas.Encoding.
+From FDAV Require Import Model.Encoding Lemmas.Encoding Lemmas.EncodingMean.
 Import ListNotations.
 
 (* per-curve sampling points (CSV loader): lossless for every content *)
@@ -95,6 +95,48 @@ Theorem C15_mean_last_agrees_single : forall (t v : Q),
   format_last Qeq_bool [t] [[(t, v)]] = [(v, 1%Q)] /\ mean_last Qeq_bool [t] [[(t, v)]] = [v].
 Proof. exact mean_last_agrees_single. Qed.
 Print Assumptions C15_mean_last_agrees_single.
+
+(* ---- the pooled layout (what the mean of irregular data requires), for every content ----
+   the weight of a grid point is the NUMBER of observations available there ... *)
+Theorem C15_pooled_weights_count : forall eqb grid (ct : @content Q Q),
+  map snd (format_pooled eqb grid ct)
+  = map (fun t => inject_Z (Z.of_nat (length (obs_at eqb t ct)))) grid.
+Proof. exact pooled_weights_count. Qed.
+Print Assumptions C15_pooled_weights_count.
+
+(* ... it does not depend on the encoding the content went through ... *)
+Theorem C15_pooled_encoding_independent : forall eqb (grid : list Q) (ct : @content Q Q),
+  format_pooled eqb grid (dec_ragged (enc_ragged ct)) = format_pooled eqb grid ct.
+Proof. exact pooled_encoding_independent. Qed.
+Print Assumptions C15_pooled_encoding_independent.
+
+(* ... and when NO sample is missing (second sentence of C15) it is the dense dataset's: weight n_obs at
+   every grid point and, as value, the column mean of the dense value matrix — for every number of
+   curves and every duplicate-free grid *)
+Theorem C15_pooled_complete_is_dense_mean : forall eqb, (forall x y, eqb x y = true <-> x = y) ->
+  forall grid (ct : @content Q Q), NoDup grid -> Forall (fun c => map fst c = grid) ct -> ct <> [] ->
+  (format_pooled eqb grid ct
+   = map (fun j => (Qred (qsum (map (fun r => nth j r 0) (dense_values ct)) / inject_Z (Z.of_nat (length ct))),
+                    inject_Z (Z.of_nat (length ct))))
+         (seq 0 (length grid)) /\
+   mean_pooled eqb grid ct
+   = map (fun j => Qred (qsum (map (fun r => nth j r 0) (dense_values ct)) / inject_Z (Z.of_nat (length ct))))
+         (seq 0 (length grid)))%Q.
+Proof.
+  intros eqb H grid ct Hn Hf Hne.
+  exact (conj (pooled_complete_is_dense_mean eqb H grid ct Hn Hf Hne)
+              (mean_pooled_complete_is_dense_mean eqb H grid ct Hn Hf Hne)).
+Qed.
+Print Assumptions C15_pooled_complete_is_dense_mean.
+
+(* non-vacuity of the complete-data statement: three complete curves on the grid 0, 1/2, 1 *)
+Example C15_pooled_complete_example :
+  (let grid := [0; 1 # 2; 1] in
+   let ct := [[(0, 1); (1 # 2, 2); (1, 6)]; [(0, 3); (1 # 2, 0); (1, 1)]; [(0, 5); (1 # 2, 4); (1, 2)]] in
+   forallb (fun c => forallb (fun p => Qeq_bool (fst p) (snd p)) (combine (map fst c) grid)) ct = true /\
+   format_pooled Qeq_bool grid ct = [(3, 3); (2, 3); (3, 3)] /\
+   mean_pooled Qeq_bool grid ct = [3; 2; 3])%Q.
+Proof. vm_compute. repeat split. Qed.
 
 (* non-vacuity: three curves on the grid 0,1,2,3 with gaps *)
 Example C15_example :
